@@ -36,6 +36,11 @@ func TestVerif(t *testing.T) {
 	case "C05":
 		verifC05(t, r, out)
 		verifC05Live(t, r, out)
+		// a link-state change is not a stop: the re-established interface advertises again, from the
+		// initial sequence (the scenarios of C06's reinitialisation clause)
+		vfReinOp = "rein5"
+		verifReinit(t, r, out)
+		vfReinOp = "rein"
 	case "C06":
 		verifSched(t, r, out, "sch6")
 		verifAdv(t, r, out, "adv6")
